@@ -29,7 +29,7 @@ RULE = ("all cycle topologies over 1-3 classes, each recursive edge drawn from {
 ASSUMPTIONS = ["depth 150 stays below the interpreter's default recursion limit (each level costs several frames)"]
 TRUSTED = ["harness topology generator"]
 
-EDGES = ["optional", "list", "dict", "vartuple", "pipe", "nonefirst", "pipefirst"]
+EDGES = ["optional", "list", "dict", "vartuple", "pipe", "nonefirst", "pipefirst", "direct"]
 
 
 def edge_ty(kind, target):
@@ -46,12 +46,14 @@ def edge_ty(kind, target):
         return ["coll", "list", t, {"sp": "builtin"}]
     if kind == "dict":
         return ["dict", ["str"], t, {"sp": "builtin"}]
+    if kind == "direct":
+        return t            # a plain class annotation (only on forward edges i -> j, i < j: some other edge closes the cycle)
     return ["coll", "vartuple", t]
 
 
 def wrap_val(kind, inner):
     """The field value holding `inner` (or the empty base when inner is None)."""
-    if kind in ("optional", "pipe", "nonefirst", "pipefirst"):
+    if kind in ("optional", "pipe", "nonefirst", "pipefirst", "direct"):
         return inner
     if kind == "list":
         return ["l", [] if inner is None else [inner]]
@@ -60,8 +62,17 @@ def wrap_val(kind, inner):
     return ["t", [] if inner is None else [inner]]
 
 
+def _legal(edges):
+    """`direct` only on forward edges (a required plain-class field cannot close a cycle: no finite value would exist)."""
+    return [(s_, ("optional" if (k == "direct" and s_ >= d) else k), d) for s_, k, d in edges]
+
+
 def topologies(ctx):
     """(n classes, edges: list of (src, kind, dst)) with at least one cycle through class 0."""
+    return [(n, _legal(es)) for n, es in _topologies(ctx)]
+
+
+def _topologies(ctx):
     r = ctx.rng
     tops = []
     for kind in EDGES:
@@ -95,7 +106,7 @@ def build_prog(idx, n, edges, r):
             fn = f"e{j}"
             fields.append([fn, edge_ty(kind, d)])
             dv = wrap_val(kind, None)
-            if flavour == "typeddict" or (flavour == "namedtuple" and isinstance(dv, list) and dv[0] in ("l", "d")):
+            if kind == "direct" or flavour == "typeddict" or (flavour == "namedtuple" and isinstance(dv, list) and dv[0] in ("l", "d")):
                 continue  # required field
             defaults.append([fn, dv])
         dn = {k for k, _ in defaults}
@@ -123,6 +134,8 @@ def deep_value(prog, edges, cls, depth, path_edge=None):
         s, kind, d = edges[j]
         if depth > 0 and mine and j == mine[0][0]:
             out.append([fn, wrap_val(kind, deep_value(prog, edges, d, depth - 1))])
+        elif kind == "direct":
+            out.append([fn, deep_value(prog, edges, d, 0)])       # a required plain-class field always holds an instance
         else:
             out.append([fn, wrap_val(kind, None)])
     return ["d", out] if c["kind"] == "typeddict" else ["o", cls, out]
